@@ -7,7 +7,7 @@ WT=/tmp/mut/confirm_$N
 git -C /repo worktree remove --force $WT 2>/dev/null; rm -rf $WT
 git -C /repo worktree add -q --detach $WT HEAD || exit 2
 res="CONFIRMED"
-/tmp/mut/buildtest.sh $WT > $WT.log 2>&1 || res="unpatched build/test failed"
+"$(dirname "$(readlink -f "$0")")/buildtest.sh" $WT > $WT.log 2>&1 || res="unpatched build/test failed"
 if [ "$res" = CONFIRMED ]; then
   ( cd $D && timeout 600 bash ./run_demo.sh $WT > $WT.demo0.log 2>&1 ) || res="demo fails on unpatched tree"
 fi
@@ -15,7 +15,7 @@ if [ "$res" = CONFIRMED ]; then
   git -C $WT apply $D/patch.diff || res="patch does not apply"
 fi
 if [ "$res" = CONFIRMED ]; then
-  /tmp/mut/buildtest.sh $WT > $WT.log2 2>&1 || res="patched build failed"
+  "$(dirname "$(readlink -f "$0")")/buildtest.sh" $WT > $WT.log2 2>&1 || res="patched build failed"
   ctest --test-dir $WT/_build -j8 --timeout 900 2>&1 | grep -q "100% tests passed" || res="tests fail with patch"
 fi
 if [ "$res" = CONFIRMED ]; then
